@@ -1,23 +1,30 @@
 (* C18 -- Keyspace region planning is exact on every input.
-   Property theorems only; every proof is `exact <lemma>`.  Model: Model/Trie.v, Model/Keyspace.v;
-   lemmas: Proofs/KeyspaceBase.v, KeyspaceProofs.v, KeyspaceAlloc.v, KeyspaceCovered.v.
+   Property theorems only; every proof is `exact <lemma>`.  Model: Model/Trie.v (the go-libdht
+   trie as it behaves) and Model/Keyspace.v (transcriptions of provider/internal/keyspace);
+   lemmas: Proofs/Keyspace{Base,Proofs,Alloc,Covered,Trie,Subtract,Coalesce,Next,Gaps,Regions,Assign}.v.
 
-   All theorems are for ALL tries that are well formed ([wf]: every leaf lies on the path
-   spelled by its key and every inner node holds a key -- what Add / AddMany / Remove /
-   PruneSubtrie / CoalesceTrie / SubtractTrie produce; the harness checks it on every trie the
-   real code builds), by induction on the trie, against definitions over [entries t] /
-   [keys_of t] only. *)
+   Every theorem is for ALL tries that are well formed ([wf]: every leaf lies on the path spelled
+   by its key and every inner node holds a key; theorems 13 and the [wf] conclusions of 4, 7, 8,
+   11, 12 show that this is what the trie operations used by the package produce; the harness
+   checks it on every trie the real code builds), by induction on the trie, against definitions
+   that only mention [entries t] / [keys_of t]:
+     [alloc_ok], [nearest], [closer] (KeyspaceAlloc.v)   [covers] (KeyspaceCovered.v)
+     [ord_before] (KeyspaceProofs.v)   [is_gap], [eff] (KeyspaceGaps.v)
+     [regions_ok] (KeyspaceRegions.v)  [assigned_to] (KeyspaceAssign.v)  [compat] (KeyspaceTrie.v)
+   Panics of the Go code (`Bit` out of range, iteration with the 256-bit zero key below depth
+   256) are [Panic] in the model; each theorem states the guard under which the result is [Ok]. *)
 From Verif.Lib Require Import GoSem Bits.
 From Verif.Model Require Import Trie Keyspace.
-From Verif.Proofs Require Import KeyspaceBase KeyspaceProofs KeyspaceAlloc KeyspaceCovered.
+From Verif.Proofs Require Import KeyspaceBase KeyspaceProofs KeyspaceAlloc KeyspaceCovered KeyspaceTrie
+  KeyspaceSubtract KeyspaceCoalesce KeyspaceNext KeyspaceGaps KeyspaceRegions KeyspaceAssign.
 From Coq Require Import Permutation Sorted.
 
 (* 1. AllocateToKClosest.  [alloc_ok r items dests pairs]: there is, for every item, a list of
-   exactly min(r, |dests|) distinct destinations, each nearer to the item (lexicographic order of
-   the XOR of the bit lists) than every destination left out, and the (destination, item) pairs
-   produced are exactly those, each once.  No panic when the tries are at most 256 deep and item
-   keys are at least as long as the destination trie is deep (all keys are 256 bits in the
-   provider: second statement). *)
+   exactly min(r, |dests|) distinct destinations, each nearer to the item ([closer]: lexicographic
+   order of the XOR of the bit lists) than every destination left out, and the (destination, item)
+   pairs produced are exactly those, each once (a permutation).  No panic when the tries are at most
+   256 deep and item keys are at least as long as the destination trie is deep; all keys are 256
+   bits in the provider (second statement). *)
 Theorem c18_alloc_exact :
   forall (D0 D1 : Type) (dz : D0) (items : trie D0) (dests : trie D1) (r : nat),
     wf items -> wf dests -> height items <= 256 -> height dests <= 256 ->
@@ -66,7 +73,8 @@ Theorem c18_prune_exact :
 Proof. exact @prune_exact. Qed.
 Print Assumptions c18_prune_exact.
 
-(* 5. AllEntries / AllKeys / AllValues: the entries of the trie, sorted by the order. *)
+(* 5. AllEntries / AllKeys / AllValues: the entries of the trie, sorted by the order
+   ([ord_before order a b]: at the first position where a and b differ, a agrees with order). *)
 Theorem c18_all_entries_sorted :
   forall (D : Type) (t : trie D) (order : bits), wf t -> height t <= length order ->
     exists l, all_entries t order = Ok l /\ Permutation l (entries t) /\
@@ -82,8 +90,169 @@ Theorem c18_covered_iff_tiles :
 Proof. exact @covered_iff_tiles. Qed.
 Print Assumptions c18_covered_iff_tiles.
 
-(* Non-vacuity: a well-formed, non-canonical trie (an empty branch above a split), a lookup, an
-   allocation to the 2 nearest of 3 destinations and a covered keyspace. *)
+(* 7. SubtractTrie: no panic (minuend at most 256 deep); the result is well formed and holds
+   exactly the entries of t0 that have no key of t1 as prefix. *)
+Theorem c18_subtract_exact :
+  forall (D0 D1 : Type) (t0 : trie D0) (t1 : trie D1),
+    wf t0 -> wf t1 -> height t0 <= 256 ->
+    exists r, subtract_trie t0 t1 = Ok r /\ wf r /\
+      forall e, In e (entries r) <->
+                In e (entries t0) /\ forall y, In y (keys_of t1) -> is_prefix y (fst e) = false.
+Proof. exact @subtract_exact. Qed.
+Print Assumptions c18_subtract_exact.
+
+(* 8. CoalesceTrie: the result is well formed; every key of the result is tiled exactly by the
+   old keys below it (same coverage, nothing added); every old key lies below a key of the result
+   (nothing lost); no two keys of the result are siblings (nothing left to merge). *)
+Theorem c18_coalesce_exact :
+  forall (D : Type) (dz : D) (t : trie D), wf t ->
+    let t' := coalesce dz t in
+    wf t' /\
+    (forall k', In k' (keys_of t') -> covers (filter (is_prefix k') (keys_of t)) k') /\
+    (forall k, In k (keys_of t) -> exists k', In k' (keys_of t') /\ is_prefix k' k = true) /\
+    (forall p, ~ (In (p ++ [false]) (keys_of t') /\ In (p ++ [true]) (keys_of t'))).
+Proof. exact @coalesce_exact. Qed.
+Print Assumptions c18_coalesce_exact.
+
+(* 9. NextNonEmptyLeaf: for a key that is in the trie or comparable with none of its keys
+   ([locatable]) and an order at least as long as the trie is deep and as the key: no panic; the
+   result is the first entry after k in the order-sorted list of entries (theorem 5), or the first
+   entry of that list when nothing comes after k: the cyclic successor.  [after k order e] is the
+   boolean form of [ord_before order k (fst e)] (second statement). *)
+Theorem c18_next_leaf_cyclic_successor :
+  forall (D : Type) (k order : bits) (t : trie D),
+    wf t -> height t <= length order -> length k <= length order -> locatable k t ->
+    exists l, all_entries t order = Ok l /\
+              next_non_empty_leaf t k order =
+              Ok (match find (after k order) l with Some e => Some e | None => hd_error l end).
+Proof. exact @next_leaf_cyclic_successor. Qed.
+Print Assumptions c18_next_leaf_cyclic_successor.
+
+Theorem c18_after_is_ord_before :
+  forall order a b : bits, beforeb order a b = true <-> ord_before order a b.
+Proof. exact beforeb_spec. Qed.
+Print Assumptions c18_after_is_ord_before.
+
+(* 10. TrieGaps.  [is_gap K T x]: x lies below T, no key of K is comparable with x, and x is T
+   itself or its parent is comparable with some key (x is a maximal uncovered prefix below T).
+   (a) with the empty target (RefreshSchedule) the result is exactly the set of gaps;
+   (b) for every target it is exactly the set of gaps below the EFFECTIVE target [eff t target],
+       the node where the descent along the target stops, which is the target or one of its
+       ancestors (c), hence exact whenever it is the target (d);
+   (e) it is NOT the set of gaps below the target in general (finding F13): for {110,111} and
+       target 00 the answer is ["0"]; for {101,111} and target 101 (covered) it is ["100"]. *)
+Theorem c18_gaps_exact_root :
+  forall (D : Type) (t : trie D) (order : bits), wf t -> height t <= length order ->
+    exists g, trie_gaps t [] order = Ok g /\ forall x, In x g <-> is_gap (keys_of t) [] x.
+Proof. exact @gaps_exact_root. Qed.
+Print Assumptions c18_gaps_exact_root.
+
+Theorem c18_gaps_effective_target :
+  forall (D : Type) (t : trie D) (target order : bits), wf t -> height t <= length order ->
+    exists g, trie_gaps t target order = Ok g /\
+              forall x, In x g <-> is_gap (keys_of t) (eff t target) x.
+Proof. exact @gaps_effective. Qed.
+Print Assumptions c18_gaps_effective_target.
+
+Theorem c18_gaps_effective_target_is_ancestor :
+  forall (D : Type) (t : trie D) (target : bits), is_prefix (eff t target) target = true.
+Proof. exact @eff_prefix_of_target. Qed.
+Print Assumptions c18_gaps_effective_target_is_ancestor.
+
+Theorem c18_gaps_exact_when_effective :
+  forall (D : Type) (t : trie D) (target order : bits),
+    wf t -> height t <= length order -> eff t target = target ->
+    exists g, trie_gaps t target order = Ok g /\ forall x, In x g <-> is_gap (keys_of t) target x.
+Proof. exact @gaps_exact_when_effective. Qed.
+Print Assumptions c18_gaps_exact_when_effective.
+
+Theorem c18_gaps_within_target_refuted :
+  (wf f13_t1 /\ trie_gaps f13_t1 [false; false] [false; false; false] = Ok [[false]] /\
+   ~ is_gap (keys_of f13_t1) [false; false] [false] /\
+   is_gap (keys_of f13_t1) [false; false] [false; false]) /\
+  (wf f13_t2 /\ trie_gaps f13_t2 [true; false; true] [false; false; false] = Ok [[true; false; false]] /\
+   ~ is_gap (keys_of f13_t2) [true; false; true] [true; false; false] /\
+   forall x, ~ is_gap (keys_of f13_t2) [true; false; true] x).
+Proof. exact gaps_within_target_refuted. Qed.
+Print Assumptions c18_gaps_within_target_refuted.
+
+(* 11. RegionsFromPeers.  [regions_ok sz order covered t R]: the regions partition the peers
+   (a permutation: every peer in exactly one region), each region is the non-empty well-formed
+   subtrie at its prefix below the covered prefix, the prefixes come in the order (hence pairwise
+   non-comparable) and tile the covered prefix, every region has at least sz peers whenever there
+   are sz peers (else there is the single region (covered, all)), and no region splits into two
+   halves of at least sz. *)
+Theorem c18_regions_partition :
+  forall (D : Type) (peers : list (bits * D)) (sz : nat) (order covered : bits) (n : nat),
+    peers <> [] -> NoDup (map fst peers) -> (forall e, In e peers -> length (fst e) = n) ->
+    n <= length order -> 1 <= sz -> (forall e, In e peers -> is_prefix covered (fst e) = true) ->
+    exists R t, regions_from_peers peers sz order covered = Ok R /\
+      wf_at covered t /\ (forall e, In e (entries t) <-> In e peers) /\ regions_ok sz order covered t R.
+Proof. exact @regions_partition. Qed.
+Print Assumptions c18_regions_partition.
+
+(* 12. AssignKeysToRegions: no panic; same regions in the same order; every key is placed in
+   the regions carrying exactly one prefix -- the first matching one, else one of maximal common
+   prefix length ([assigned_to]) -- and nothing else is placed. *)
+Theorem c18_assign_total_unique :
+  forall (D : Type) (rs : list bits) (keys : list (bits * D)),
+    rs <> [] -> NoDup (map fst keys) -> compat (map fst keys) ->
+    exists out, assign_keys_to_regions rs keys = Ok out /\ map fst out = rs /\
+      (forall q t, In (q, t) out -> wf t /\ forall e, In e (entries t) -> In e keys) /\
+      (forall e, In e keys -> exists p, assigned_to rs (fst e) p /\
+                                        forall q t, In (q, t) out -> (In e (entries t) <-> q = p)).
+Proof. exact @assign_total_unique. Qed.
+Print Assumptions c18_assign_total_unique.
+
+(* 13. ShortestCoveredPrefix is sound for at least two peers sorted by distance to the target (non
+   increasing common prefix length), some peer differing from the target within its length, and
+   peers that are the nearest of a swarm: the returned prefix is a prefix of the target, the
+   returned peers are exactly the peers under it, and every swarm member under it is returned.
+   Without the guard it is false (F12, short targets; no caller passes one). *)
+Theorem c18_shortest_covered_prefix_sound :
+  forall (D : Type) (target : bits) (sorted swarm : list (bits * D)),
+    2 <= length sorted ->
+    (forall a x b y r, sorted = a ++ x :: b ++ y :: r -> cpl target (fst y) <= cpl target (fst x)) ->
+    (exists e, In e sorted /\ cpl target (fst e) < length target) ->
+    (forall s, In s swarm ->
+       In s sorted \/ forall p, In p sorted -> cpl target (fst s) <= cpl target (fst p)) ->
+    let r := shortest_covered_prefix target sorted in
+    is_prefix (fst r) target = true /\
+    (forall x, In x (snd r) -> In x sorted /\ is_prefix (fst r) (fst x) = true) /\
+    (forall s, In s swarm -> is_prefix (fst r) (fst s) = true -> In s (snd r)) /\
+    (forall x, In x sorted -> is_prefix (fst r) (fst x) = true -> In x (snd r)).
+Proof. exact @shortest_covered_prefix_sound. Qed.
+Print Assumptions c18_shortest_covered_prefix_sound.
+
+Theorem c18_shortest_covered_prefix_short_target_refuted :
+  exists (target : bits) (sorted : list (bits * nat)),
+    2 <= length sorted /\
+    (forall e, In e sorted -> is_prefix target (fst e) = true) /\
+    shortest_covered_prefix target sorted = ([], []) /\
+    ~ (forall x, In x sorted -> is_prefix (fst (shortest_covered_prefix target sorted)) (fst x) = true ->
+                 In x (snd (shortest_covered_prefix target sorted))).
+Proof. exact shortest_covered_prefix_short_target_refuted. Qed.
+Print Assumptions c18_shortest_covered_prefix_short_target_refuted.
+
+(* 14. The go-libdht trie: AddMany / Add of keys that are pairwise non-comparable with each other
+   and with the keys present ([compat]) never panic, keep the trie well formed and add exactly the
+   new entries. *)
+Theorem c18_add_many_wf :
+  forall (D : Type) (t : trie D) (es : list (bits * D)),
+    wf t -> NoDup (map fst es) -> compat (map fst es ++ keys_of t) ->
+    exists t', add_all t es = Ok t' /\ wf t' /\ added es t t'.
+Proof. exact @add_all_spec. Qed.
+Print Assumptions c18_add_many_wf.
+
+Theorem c18_add_wf :
+  forall (D : Type) (t : trie D) (k : bits) (d : D),
+    wf t -> compat (k :: keys_of t) ->
+    exists t', add_one t k d = Ok t' /\ wf t' /\ added [(k, d)] t t'.
+Proof. exact @add_one_spec. Qed.
+Print Assumptions c18_add_wf.
+
+(* Non-vacuity: well-formed tries (one with an empty branch above a split, as Remove / Prune
+   leave them) meeting the hypotheses above, with non-trivial results. *)
 Definition ex_t : trie nat := Nd E (Nd (L [true; false] 1) (L [true; true; false] 2)).
 Definition ex_full : trie nat := Nd (L [false] 0) (Nd (L [true; false] 1) (L [true; true] 2)).
 Definition ex_items : trie nat := Nd (L [false; false; true] 7) (L [true; true; true] 8).
@@ -93,5 +262,11 @@ Example c18_nonvacuous :
   wf ex_t /\ find_prefix_of_key ex_t [true; true; false; true] = Ok ([true; true; false], true) /\
   wf ex_full /\ keyspace_covered ex_full = Ok true /\ keyspace_covered ex_t = Ok false /\
   wf ex_items /\ wf ex_dests /\
-  allocate_to_k_closest 0 ex_items ex_dests 2 = Ok [(10, [7]); (11, [7]); (12, [8]); (11, [8])].
+  allocate_to_k_closest 0 ex_items ex_dests 2 = Ok [(10, [7]); (11, [7]); (12, [8]); (11, [8])] /\
+  trie_gaps ex_t [] [true; false; false] = Ok [[true; true; true]; [false]] /\
+  next_non_empty_leaf ex_t [true; true; false] [true; false; false] = Ok (Some ([true; false], 1)) /\
+  subtract_trie ex_full ex_t = Ok (Nd (L [false] 0) (L [true; true] 2)) /\
+  coalesce 9 ex_full = L [] 9 /\
+  regions_from_peers [([false; false], 1); ([false; true], 2); ([true; true], 3)] 1 [true; true] []
+    = Ok [([true], L [true; true] 3); ([false; true], L [false; true] 2); ([false; false], L [false; false] 1)].
 Proof. vm_compute. repeat split; auto; lia. Qed.
